@@ -35,6 +35,13 @@ func init() {
 				w := float64(2 + c.rng.Intn(3))
 				return orb.Ring{{ox, oy}, {ox + w, oy}, {ox + w, oy + w}, {ox, oy + w}, {ox, oy}}
 			}
+			if class == 3 { // comes out with exactly three vertices: a sliver (closed) / an open ring at its minimum count
+				w := float64(3 + c.rng.Intn(3))
+				if c.rng.Intn(2) == 0 {
+					return orb.Ring{{ox, oy}, {ox + w/2, oy + 0.1}, {ox + w, oy}, {ox, oy}}
+				}
+				return orb.Ring{{ox, oy}, {ox + w, oy}, {ox + w, oy + 0.2}, {ox, oy + 0.2}} // not closed
+			}
 			w := float64(2 + c.rng.Intn(3))
 			return orb.Ring{{ox, oy}, {ox + w/2, oy}, {ox + w, oy}, {ox + w, oy + w}, {ox + w/2, oy + w + 0.05}, {ox, oy + w}, {ox, oy}}
 		}
@@ -47,35 +54,41 @@ func init() {
 			var want, cls []int
 			var poly orb.Polygon
 			var mp orb.MultiPolygon
-			for j := 0; j < nparts; j++ {
-				class := c.rng.Intn(3)
-				if !multi {
-					if j == 0 && class == 0 {
-						class = 1 // the outer ring of a polygon is kept whatever happens to it
+			setCurrent("simplify parts "+alg, i)
+			if site := guard(func() {
+				for j := 0; j < nparts; j++ {
+					class := c.rng.Intn(4)
+					if !multi {
+						if j == 0 && class == 0 {
+							class = 1 // the outer ring of a polygon is kept whatever happens to it
+						}
+						r := ringOf(class, float64(10*j), 0)
+						poly = append(poly, r)
+						res := s.Ring(r.Clone())
+						w := lg.id(res)
+						if j != 0 && len(res) <= 2 {
+							w = 0
+						}
+						feats = append(feats, x01Feat{Tag: j + 1, G: lg.id(r)})
+						want = append(want, w)
+					} else {
+						p := orb.Polygon{ringOf(class, float64(10*j), 0)}
+						if c.rng.Intn(2) == 0 {
+							p = append(p, ringOf(c.rng.Intn(4), float64(10*j)+0.5, 0.5)) // a hole (placement does not matter here)
+						}
+						mp = append(mp, p)
+						res := s.Polygon(p.Clone())
+						w := lg.id(res)
+						if len(res) == 0 || len(res[0]) <= 2 {
+							w = 0
+						}
+						feats = append(feats, x01Feat{Tag: j + 1, G: lg.id(p)})
+						want = append(want, w)
 					}
-					r := ringOf(class, float64(10*j), 0)
-					poly = append(poly, r)
-					res := s.Ring(r.Clone())
-					w := lg.id(res)
-					if j != 0 && len(res) <= 2 {
-						w = 0
-					}
-					feats = append(feats, x01Feat{Tag: j + 1, G: lg.id(r)})
-					want = append(want, w)
-				} else {
-					p := orb.Polygon{ringOf(class, float64(10*j), 0)}
-					if c.rng.Intn(2) == 0 {
-						p = append(p, ringOf(c.rng.Intn(3), float64(10*j)+0.5, 0.5)) // a hole (placement does not matter here)
-					}
-					mp = append(mp, p)
-					res := s.Polygon(p.Clone())
-					w := lg.id(res)
-					if len(res) == 0 || len(res[0]) <= 2 {
-						w = 0
-					}
-					feats = append(feats, x01Feat{Tag: j + 1, G: lg.id(p)})
-					want = append(want, w)
 				}
+			}); site != "" {
+				c.emit(panicEvent("simplify-parts-"+alg, site, fmt.Sprint(poly, mp)))
+				continue
 			}
 			for j := range want {
 				switch {
